@@ -928,6 +928,7 @@ func NewPortStatus() *PortStatus {
 	p := new(PortStatus)
 	p.Header = NewOfp13Header()
 	p.pad = make([]byte, 7)
+	p.Desc = *NewPhyPort()
 	return p
 }
 
@@ -961,8 +962,9 @@ func (s *PortStatus) UnmarshalBinary(data []byte) error {
 	s.Reason = data[n]
 	n += 1
 	copy(s.pad, data[n:])
-	n += len(s.pad)
+	n += 7
 
+	s.Desc = *NewPhyPort()
 	err = s.Desc.UnmarshalBinary(data[n:])
 	return err
 }
